@@ -1595,3 +1595,11 @@ package engine
 //@   property C02
 //@   trusted
 //@   unify-result-checked
+
+//@ spec fun keyOf(v int) int = wrap64(ite(tdiv(v, 2) != 0, 0 - v, v))
+//@ func newEnvKey
+//@   property C02
+//@   enc bv
+//@   wraps k * -1
+//@   ensures[key] result == keyOf(v)
+//@   claim[distinct-variables-have-distinct-keys] forall a Variable, b Variable :: keyOf(a) == keyOf(b) ==> a == b
